@@ -93,6 +93,9 @@ func (P *Program) VerifyFunc(fn *ssa.Function) (res *FuncResult) {
 	fr.old = st.clone()
 	c.initState = fr.old
 	name := c.relName(fn)
+	if c.prog.isLogg(fn) {
+		c.invEntry = c.assumeInvariants(st)
+	}
 	var props []string
 	if con != nil {
 		props = con.Props
@@ -168,6 +171,17 @@ func (P *Program) VerifyFunc(fn *ssa.Function) (res *FuncResult) {
 			}
 			if con.NoReturn {
 				c.oblige("post", name+"#noreturn", "", props, "false", ex.site.Pos(), "function declared noreturn returns")
+			}
+			c.checkInvariants(fr, ex, name, props)
+			for _, k := range c.keptLeaves(con) {
+				cur := c.H(ex.st, k[0], k[1])
+				init := c.H(fr.old, k[0], k[1])
+				if cur != init {
+					c.nsym++
+					rsk := c.fresh("sk_r", "Int")
+					g := implies(and(app("<=", "0", rsk), app("<", rsk, c.next(fr.old))), eq(app("select", cur, rsk), app("select", init, rsk)))
+					c.oblige("frame", fmt.Sprintf("%s#keeps{%s}", name, k[0]), "", props, g, ex.site.Pos(), "declared 'keeps': unchanged for every object that existed at entry: "+k[0])
+				}
 			}
 			if !con.AssignsAll {
 				c.frameObligations(fr, ex, locs, name, props)
@@ -615,4 +629,44 @@ func (r *FuncResult) modelTerms(o *Obligation) []string {
 		}
 	}
 	return out
+}
+
+// assumeInvariants assumes every package invariant in state st; returns the evaluated terms.
+func (c *Ctx) assumeInvariants(st *State) []string {
+	var out []string
+	if c.inInv {
+		return nil
+	}
+	c.inInv = true
+	defer func() { c.inInv = false }()
+	for _, inv := range c.prog.Invariants {
+		env := &Env{c: c, fr: c.topFrame, fn: c.fn, st: st, old: st, vars: map[string]*Val{}, fd: "0"}
+		if c.topFrame != nil {
+			env.fd = c.topFrame.fd
+		}
+		env.fr = nil
+		g := env.evalTop(inv)
+		c.assume(g.Term)
+		out = append(out, g.Term)
+	}
+	return out
+}
+
+// checkInvariants: every package invariant holds again when the function returns.
+func (c *Ctx) checkInvariants(fr *Frame, ex *exitInfo, name string, props []string) {
+	if !c.prog.isLogg(c.fn) {
+		return
+	}
+	for i, inv := range c.prog.Invariants {
+		env := &Env{c: c, fn: c.fn, st: ex.st, old: ex.st, vars: map[string]*Val{}, fd: fr.fd}
+		g := env.evalTop(inv)
+		if i < len(c.invEntry) && g.Term == c.invEntry[i] {
+			continue // nothing it depends on changed
+		}
+		ps := inv.Props
+		if len(ps) == 0 {
+			ps = props
+		}
+		c.oblige("invariant", fmt.Sprintf("%s#invariant[%s]", name, lbl(inv)), inv.Label, ps, g.Term, ex.site.Pos(), "package invariant preserved: "+inv.Src)
+	}
 }
